@@ -1311,9 +1311,12 @@ def _schedule(prop, tier, seed):
                         wins = [(length, 0)] if prop == "C15" else [(length + 1, length + 1 - w)]
                     if quick and c not in tcases[:2] and c not in acases:
                         continue
-                    if not quick and "t4" in c.name:
-                        # two full vectors and the overlapping final window (prev0..2 carried / reset: seeded C06b)
-                        wins += [(34, 30), (35, 15)]
+                    if not quick and ("t4" in c.name or c.name.endswith("s256_4")):
+                        # two full vectors and the overlapping final window shifted by V-1 bytes: the occurrence
+                        # straddles the end of the last full window and its 4th byte is the 2nd byte of the final
+                        # window (prev0..2 carried / reset: seeded C06b needs exactly L = 2V+2, start = L-V-2)
+                        vb = 32 if f.get("teddy_variant") == 1 else 16
+                        wins += [(2 * vb + 2, vb), (2 * vb + 2, 2 * vb - 2), (2 * vb + 3, vb - 1)]
                     for (ln, off) in dict.fromkeys(wins):
                         hs.append(h_pk_teddy(prop, c, facts, ln, off, w, 0x5a))
                     continue
